@@ -55,7 +55,9 @@ class AxolotlControlLayer(AxolotlBaseLayer):
     def on_connected(self, yowLayerEvent):
         super(AxolotlControlLayer, self).on_connected(yowLayerEvent)
         self.manager.level_prekeys()
-        self._unsent_prekeys.extend(self.manager.load_unsent_prekeys())
+        # what is pending now, not what was pending at an earlier connection that never got as far as logging in: a key of
+        # that list that a first message has consumed in the meantime must not be offered to the server again
+        self._unsent_prekeys = self.manager.load_unsent_prekeys()
         if len(self._unsent_prekeys):
             self.setProp(YowAuthenticationProtocolLayer.PROP_PASSIVE, True)
 
